@@ -23,12 +23,14 @@ def make_probe(ss):
             super().__init__(**kw); self.problems = []; self.n_uid = []
         def step(self):
             sim = self.sim; ppl = sim.people; au = np.asarray(ppl.auids); ti = int(sim.t.ti)
-            self.n_uid.append(int(ppl.uid.len_used))
+            on_sim_step = abs(float(self.t.abstvec[min(self.t.ti, self.t.npts - 1)]) - float(sim.t.abstvec[min(ti, sim.t.npts - 1)])) < 1e-9
+            if on_sim_step: self.n_uid.append(int(ppl.uid.len_used))
             alive_n = int(np.count_nonzero(ppl.alive.raw[au]))
-            if sim.results.n_alive[ti] != alive_n:
+            if on_sim_step and sim.results.n_alive[ti] != alive_n:
                 self.problems.append((ti, 'sim.n_alive', float(sim.results.n_alive[ti]), alive_n))
             for dis in sim.diseases():
-                if dis.t.npts != sim.t.npts: continue
+                # the disease records on ITS timeline: check it when its current instant is the probe's current instant
+                if abs(float(dis.t.abstvec[min(dis.t.ti, dis.t.npts - 1)]) - float(self.t.abstvec[min(self.t.ti, self.t.npts - 1)])) > 1e-9: continue
                 for st in dis._disease_states:
                     want = int(np.count_nonzero(st.raw[au]))
                     got = dis.results[f'n_{st.name}'][dis.ti]
@@ -46,10 +48,12 @@ def make_probe(ss):
 
 def configs(ss, Recount):
     cf = {}
-    cf['sir-births-deaths'] = lambda seed, **kw: ss.Sim(n_agents=150, diseases=ss.SIR(p_death=0.2), networks=ss.RandomNet(), analyzers=Recount(name='recount'),
+    cf['sir-births-deaths'] = lambda seed, **kw: ss.Sim(n_agents=150, diseases=ss.SIR(p_death=0.2, init_prev=0.1), networks=ss.RandomNet(), analyzers=Recount(name='recount'),
                                                        demographics=[ss.Births(birth_rate=40), ss.Deaths(death_rate=30)], dur=10, rand_seed=seed, verbose=0, **kw)
-    cf['two-diseases-dt'] = lambda seed, **kw: ss.Sim(n_agents=120, diseases=[ss.SIS(), ss.SIR(dt=0.5)], networks=ss.RandomNet(n_contacts=4), analyzers=Recount(name='recount'),
+    cf['two-diseases-dt'] = lambda seed, **kw: ss.Sim(n_agents=120, diseases=[ss.SIS(init_prev=0.2), ss.SIR(dt=0.5, init_prev=0.1)], networks=ss.RandomNet(n_contacts=4), analyzers=Recount(name='recount'),
                                                      demographics=ss.Deaths(death_rate=25), dur=8, rand_seed=seed, verbose=0, **kw)
+    cf['fine-disease-fine-births'] = lambda seed, **kw: ss.Sim(n_agents=100, diseases=ss.SIS(dt=0.25, init_prev=0.3, beta=0.2), networks=ss.RandomNet(n_contacts=4, dt=0.25), analyzers=Recount(name='recount', dt=0.25),
+                                                     demographics=[ss.Births(birth_rate=400, dt=0.25), ss.Deaths(death_rate=50)], dur=5, rand_seed=seed, verbose=0, **kw)
     cf['pregnancy-hiv'] = lambda seed, **kw: ss.Sim(n_agents=200, diseases=ss.HIV(beta={'mf': [0.1, 0.05], 'prenatal': [0.3, 0]}), networks=[ss.MFNet(), ss.PrenatalNet()],
                                                    analyzers=Recount(name='recount'), demographics=[ss.Pregnancy(fertility_rate=60), ss.Deaths(death_rate=15)], dur=6, rand_seed=seed, verbose=0, **kw)
     return cf
@@ -110,7 +114,7 @@ def run(ctx):
                 cum_terms.append(f'({up}, [' + '; '.join(qlit(float(x)) for x in new) + '], [' + '; '.join(qlit(float(x)) for x in cum) + '])')
                 cum_meta.append(key | dict(series=ck))
             # births flow = agents created
-            if 'births.new' in R and 'pregnancy.births' not in R:
+            if 'births.new' in R and 'pregnancy.births' not in R and len(R['births.new'][1]) == len(probe.n_uid):
                 created = np.diff([int(base.pars.n_agents)] + probe.n_uid)
                 ctx.count(('births-flow', name, seed)); ctx.dist('births flow vs agents created')
                 if not np.array_equal(created, R['births.new'][1]):
